@@ -104,7 +104,8 @@ class Gen:
             sc = rng.choice(SCALARS)
             unit = SCALAR_VAL[sc]
             n = rng.choice([0, 1, 2, 30, 4294967295 // unit])
-            self.emit(b'%d' % n, 'int'); self.emit(sc, 'scalar')
+            # the value of an integer is what counts, not how many digits spell it
+            self.emit(b'0' * rng.choice([0, 0, 0, 1, 9, 12, 24]) + b'%d' % n, 'int'); self.emit(sc, 'scalar')
         elif k == 8:
             self.emit(b'new')
         elif k == 9:
